@@ -283,6 +283,23 @@ func vC20RefEmbed(p *net.IPNet, v4 net.IP) net.IP {
 	return out
 }
 
+// first byte behind the embedded address (RFC 6052 2.2 "suffix")
+func vC20SuffixStart(bits int) int {
+	switch bits {
+	case 32:
+		return 8
+	case 40:
+		return 10
+	case 48:
+		return 11
+	case 56:
+		return 12
+	case 64:
+		return 13
+	}
+	return 16
+}
+
 func vC20IsMapped(ip net.IP) bool { return len(ip) == 16 && ip.To4() != nil }
 
 func vC20OptBytes(b []byte, ok bool) string {
@@ -339,18 +356,32 @@ func vC20Direct(o *vC20Out, r *rand.Rand, n int) {
 		p := vC20RandLegalPrefix(r)
 		v4 := vC20RandV4(r)
 		addr := embedIPv4(p, v4)
-		kind := r.Intn(8)
+		kind := r.Intn(10)
 		fkey := ""
+		pbits, _ := p.Mask.Size()
+		sfx := vC20SuffixStart(pbits)
 		switch kind {
 		case 0: // as is
 		case 1:
-			addr[8] ^= byte(1 + r.Intn(255))
-		case 2:
-			addr[9+r.Intn(7)] ^= byte(1 << r.Intn(8))
-		case 3:
-			addr[r.Intn(8)] ^= byte(1 << r.Intn(8))
+			addr[8] ^= byte(1 << r.Intn(8))
+		case 2: // anywhere behind the prefix
+			addr[pbits/8+r.Intn(16-pbits/8)] ^= byte(1 << r.Intn(8))
+		case 3: // inside the prefix, last prefix byte most of the time
+			if r.Intn(3) == 0 {
+				addr[r.Intn(pbits/8)] ^= byte(1 << r.Intn(8))
+			} else {
+				addr[pbits/8-1] ^= byte(1 << r.Intn(8))
+			}
 		case 4:
 			addr[15] ^= 1
+		case 8: // first byte of the suffix
+			if sfx < 16 {
+				addr[sfx] ^= byte(1 << r.Intn(8))
+			}
+		case 9: // somewhere in the suffix
+			if sfx < 16 {
+				addr[sfx+r.Intn(16-sfx)] ^= byte(1 << r.Intn(8))
+			}
 		case 5:
 			addr = vC20RandV6(r)
 		case 6:
@@ -361,7 +392,8 @@ func vC20Direct(o *vC20Out, r *rand.Rand, n int) {
 				addr = append(addr[:12:12], vC20RandV4(r)...)
 			}
 		}
-		if vC20IsMapped(addr) && !vC20IsMapped(p.IP) {
+		if addr.To4() != nil && !vC20IsMapped(p.IP) {
+			// 4-byte or ::ffff:a.b.c.d form: Contains shortens it before comparing
 			fkey = "dns64-zero-prefix-mapped"
 		}
 		ext, ok := extractIPv4(p, addr)
@@ -451,7 +483,7 @@ func vC20Direct(o *vC20Out, r *rand.Rand, n int) {
 			_, nw, _ = net.ParseCIDR(fmt.Sprintf("%s/%d", vC20RandV6(r), r.Intn(129)))
 		}
 		var ip net.IP
-		switch r.Intn(7) {
+		switch r.Intn(12) {
 		case 0:
 			ip = vC20RandV4(r)
 		case 1:
@@ -468,7 +500,7 @@ func vC20Direct(o *vC20Out, r *rand.Rand, n int) {
 					ip[j/8] |= 0x80 >> (j % 8)
 				}
 			}
-			if ones > 0 && r.Intn(2) == 0 {
+			if ones > 0 && r.Intn(3) == 0 {
 				j := ones - 1 - r.Intn(min(ones, 3))
 				ip[j/8] ^= 0x80 >> (j % 8)
 			}
@@ -538,7 +570,7 @@ func vC20RandConfig(r *rand.Rand) *config.Config {
 			c.DNS64.Prefixes = append(c.DNS64.Prefixes, vC20RandPrefixString(r))
 		}
 	}
-	if r.Intn(10) < 4 {
+	if r.Intn(10) < 3 {
 		for i, cnt := 0, 1+r.Intn(2); i < cnt; i++ {
 			c.DNS64.ClientNetworks = append(c.DNS64.ClientNetworks, vC20Pick(r, []string{
 				"203.0.113.0/24", "10.0.0.0/8", "2001:db8:c::/48", "::/0", "::ffff:203.0.113.0/120", "bogus", "0.0.0.0/0", " 198.51.100.0/25 "}))
@@ -599,7 +631,9 @@ type vC20Writer struct {
 	internal bool
 }
 
-func (w *vC20Writer) RemoteIP() net.IP { return w.ip }
+// the chain's base writer takes the client address from RemoteAddr()
+func (w *vC20Writer) RemoteIP() net.IP     { return w.ip }
+func (w *vC20Writer) RemoteAddr() net.Addr { return &net.UDPAddr{IP: w.ip, Port: 5300} }
 func (w *vC20Writer) Internal() bool   { return w.internal }
 
 type vC20Queryer struct {
@@ -844,7 +878,7 @@ func vC20RandA(r *rand.Rand, qname string) (*dns.Msg, bool) {
 }
 
 func vC20ClientIP(r *rand.Rand, cfg *compiled) net.IP {
-	if len(cfg.clientNetworks) > 0 && r.Intn(3) != 0 {
+	if len(cfg.clientNetworks) > 0 && r.Intn(5) != 0 {
 		n := cfg.clientNetworks[r.Intn(len(cfg.clientNetworks))]
 		ip := append(net.IP{}, n.IP...)
 		ones, bitsLen := n.Mask.Size()
@@ -906,10 +940,10 @@ func vC20Serve(o *vC20Out, r *rand.Rand, n int) {
 
 		// ---- the query
 		qtype := dns.TypeAAAA
-		switch k := r.Intn(20); {
-		case k < 3:
+		switch k := r.Intn(40); {
+		case k < 6:
 			qtype = dns.TypePTR
-		case k < 4:
+		case k < 7:
 			qtype = []uint16{dns.TypeA, dns.TypeMX, dns.TypeANY, dns.TypeCNAME}[r.Intn(4)]
 		}
 		qname := vC20Pick(r, []string{"h.ex.t.", "ex.t.", "badex.t.", "h.other.", "H.Ex.T.", "a.sub.ex.t.", "sub.ex.t.", "w.t.", "x.y.ex.t.", "ex.t.x.", "a.arpa."})
@@ -918,11 +952,18 @@ func vC20Serve(o *vC20Out, r *rand.Rand, n int) {
 			case k < 7: // an address embedded under one of the configured prefixes
 				p := d.cfg.prefixes[r.Intn(len(d.cfg.prefixes))]
 				addr := embedIPv4(p.net, vC20RandV4(r))
-				switch r.Intn(8) {
+				pb, _ := p.net.Mask.Size()
+				switch r.Intn(10) {
 				case 0:
 					addr[8] ^= 0x10
 				case 1:
 					addr[15] ^= 1
+				case 2:
+					if sfx := vC20SuffixStart(pb); sfx < 16 {
+						addr[sfx] ^= byte(1 << r.Intn(8))
+					}
+				case 3:
+					addr[pb/8-1] ^= byte(1 << r.Intn(8))
 				}
 				qname = vC20ArpaName(addr)
 				if r.Intn(4) == 0 {
@@ -939,11 +980,11 @@ func vC20Serve(o *vC20Out, r *rand.Rand, n int) {
 		req := new(dns.Msg)
 		req.SetQuestion(qname, qtype)
 		req.Id = uint16(r.Intn(65536))
-		if r.Intn(20) == 0 {
+		if r.Intn(40) == 0 {
 			req.Question[0].Qclass = dns.ClassCHAOS
 		}
-		req.RecursionDesired = r.Intn(10) != 0
-		req.CheckingDisabled = r.Intn(10) == 0
+		req.RecursionDesired = r.Intn(25) != 0
+		req.CheckingDisabled = r.Intn(25) == 0
 		req.AuthenticatedData = r.Intn(4) == 0
 		sc.hasOPT = r.Intn(5) != 0
 		if sc.hasOPT {
@@ -959,7 +1000,7 @@ func vC20Serve(o *vC20Out, r *rand.Rand, n int) {
 			sc.wireBorn = false
 		}
 		sc.req = req
-		sc.internal = r.Intn(20) == 0
+		sc.internal = r.Intn(40) == 0
 		sc.client = vC20ClientIP(r, d.cfg)
 
 		// ---- downstream response and the scripted queryer
@@ -985,7 +1026,10 @@ func vC20Serve(o *vC20Out, r *rand.Rand, n int) {
 				sc.aResp, sc.wf = vC20RandA(r, qname)
 			}
 		}
-		sc.work = !sc.wireBorn && r.Intn(25) == 0
+		sc.work = !sc.wireBorn && r.Intn(12) == 0
+		if sc.work && sc.down != nil && r.Intn(2) == 0 {
+			sc.down.Rcode = dns.RcodeServerFailure
+		}
 		vC20Run(o, sc, r.Intn(2) == 0)
 	}
 }
